@@ -265,4 +265,6 @@ def z3_identity_unsat(lhs_terms, rhs_terms, timeout_ms=120000):
     l, r = side(lhs_terms), side(rhs_terms)
     s.add(l != r)
     res = s.check()
+    from . import xsolve
+    xsolve.cross(s, "polynomial identity", str(res))
     return str(res), s
